@@ -1,6 +1,7 @@
 /-
 C08 — completeness of `verify_nsec` at the validator level, for the two negative shapes whose
-accepting arm is complete (NXDOMAIN, NODATA at an existing owner): whenever the claim is true in
+accepting arm is complete (NXDOMAIN, NODATA at an empty non-terminal, NODATA at an existing
+owner): whenever the claim is true in
 a zone view `Z` and the response carries the records RFC 4035 §3.1.3.2 / §5.4 ask for — the
 link of `Z`'s chain covering the query name and the link covering the wildcard at its closest
 encloser (NXDOMAIN), or a link owned by the query name (NODATA) — among any other links of `Z`,
@@ -8,10 +9,8 @@ in any order, the verdict is `Secure`.
 
 This is the validator half of "the proof the authoritative server attaches is accepted".  The
 server half — which records `nsec_records` / `build_authoritative_response` attach — is
-modelled by C10 (`Model/AuthZoneSigned.lean`, `C10.closestNsec_covers`); it attaches the cover
-of `*.<parent of qname>`, which is the wildcard at the closest encloser only when the parent
-exists (open finding C08-G6 otherwise).  The other response shapes (empty non-terminal NODATA,
-wildcard NODATA, wildcard answers) are NOT complete: open findings C08-G1, G2, G4, G5.
+modelled by C10 (`Model/AuthZoneSigned.lean`) and joined in `C08Server.lean`.  Acceptance of
+wildcard-expanded answers and of wildcard NODATA is not proved here (validated end to end).
 -/
 import HickoryVerif.Proofs.C08
 
@@ -28,7 +27,7 @@ theorem covers_of_coversIn {s t : Name} {r : Nsec} {Z : ZoneView} (ht : t.fqdn =
   refine ⟨⟨h.1, ?_⟩, hnd⟩
   rcases h.2 with h2 | ⟨h2, _⟩
   · exact Or.inl h2
-  · exact Or.inr ⟨s, rfl, by rw [h2, hapex]⟩
+  · exact Or.inr (Or.inl ⟨s, rfl, by rw [h2, hapex]⟩)
 
 theorem find?_some_of_mem {α} {p : α → Bool} {l : List α} {a : α} (ha : a ∈ l) (hp : p a = true) :
     ∃ b, l.find? p = some b := by
@@ -119,7 +118,7 @@ theorem completeness_nxdomain {q s : Name} {qtype : Nat} {nsecs : List Nsec} {Z 
   have hc' : findCovering (some s) q nsecs = some c := hc
   obtain ⟨hcm, hcc⟩ := findCovering_some hc'
   obtain ⟨hccov, hcdel⟩ := coversIn_of_covers (Z := Z) hwf.q (hwf.nsecs c hcm) hsoa hapex'
-    (fun s' h => by cases h; exact hin) hcc
+    (fun s' h => by cases h; exact hin) (hZ c hcm) hcc
   have ctx : CoverCtx q (some s) nsecs c Z :=
     { qf := hwf.q, soaf := hsoa, nf := hwf.nsecs, apex := hapex', hZ := hZ,
       inzone := fun s' h => by cases h; exact hin, cmem := hcm, ccov := hccov, cdel := hcdel }
@@ -161,6 +160,112 @@ theorem completeness_nxdomain {q s : Name} {qtype : Nat} {nsecs : List Nsec} {Z 
   unfold verifyNsec
   rw [if_neg (by decide)]
   simp only [hst, hdirect, hc', hcov]
+
+/-- a link that sorts its next name before its owner is the last link: next = apex -/
+theorem wrap_of_next_lt {Z : ZoneView} {n : Nsec} (hl : LinkOf Z n) (h : K n.next < K n.owner) :
+    K n.next = Z.apex := by
+  apply Classical.byContradiction
+  intro hne
+  exact lt_irrefl _ (lt_trans (link_owner_lt_next hl hne).1 h)
+
+theorem lt_of_le_of_ne' {a b : Key} (h : a ≤ b) (hne : a ≠ b) : a < b := by
+  apply Classical.byContradiction
+  intro hn
+  exact hne (List.le_antisymm h (not_lt.1 hn))
+
+/-- What `closest_nsec(x)` guarantees about the link `n` it returns — owner not after `x`, and
+`x` before the next name or the link wraps — makes `n` a cover of `x` as soon as `x` does not
+exist in the zone view. -/
+theorem coversIn_of_closest {Z : ZoneView} {n : Nsec} {x : Key} (hl : LinkOf Z n)
+    (hx : ¬ Z.Exists x) (hin : Z.apex <+: x)
+    (h1 : ¬ x < K n.owner) (h2 : x < K n.next ∨ K n.next < K n.owner) : CoversIn Z x n := by
+  have hneq : K n.owner ≠ x := by
+    intro he
+    exact hx ⟨K n.owner, link_owner_data hl, by rw [he]; exact List.prefix_refl _⟩
+  refine ⟨lt_of_le_of_ne' (not_lt.1 h1) hneq, ?_⟩
+  rcases h2 with h | h
+  · exact Or.inl h
+  · exact Or.inr ⟨wrap_of_next_lt hl h, hin⟩
+
+/-- **NXDOMAIN proof made of two `closest_nsec` results is accepted**: `cn` is what
+`closest_nsec` guarantees for the query name, `wn` what it guarantees for the wildcard at the
+closest encloser. -/
+theorem completeness_nxdomain_closest {q s : Name} {qtype : Nat} {nsecs : List Nsec}
+    {Z : ZoneView} {cn wn : Nsec} {ce : Key}
+    (hwf : InputsWF q (some s) [] nsecs) (hqb : C04.Bounded q)
+    (hapex : K s = Z.apex) (hin : K s <+: K q) (hZ : ConsistentWith nsecs Z)
+    (hnq : ¬ Z.Exists (K q)) (hce : Z.ClosestEncloser ce (K q))
+    (hnw : ¬ Z.Exists (ce ++ [Spec.STAR])) (hapexce : Z.apex <+: ce)
+    (hcm : cn ∈ nsecs) (hc1 : ¬ K q < K cn.owner)
+    (hc2 : K q < K cn.next ∨ K cn.next < K cn.owner)
+    (hcd : ¬ IsAncestorDelegation cn.types)
+    (hwm : wn ∈ nsecs) (hw1 : ¬ ce ++ [Spec.STAR] < K wn.owner)
+    (hw2 : ce ++ [Spec.STAR] < K wn.next ∨ K wn.next < K wn.owner)
+    (hwd : ¬ IsAncestorDelegation wn.types) :
+    verifyNsec q qtype (some s) 3 [] nsecs = .secure :=
+  completeness_nxdomain hwf hqb hapex hin hZ hnq hce hnw hcm
+    (coversIn_of_closest (hZ cn hcm) hnq (hapex ▸ hin) hc1 hc2) (fun h => hcd h.1) hwm
+    (coversIn_of_closest (hZ wn hwm) hnw (List.IsPrefix.trans hapexce (List.prefix_append _ _))
+      hw1 hw2) (fun h => hwd h.1)
+
+/-! ### NODATA at an empty non-terminal -/
+
+/-- **The NODATA proof for an empty non-terminal is accepted**: the query name exists in `Z`
+but owns no data, the response carries a link of `Z` covering it (not a parent-side delegation
+record above it).  No SOA is needed unless the covering link is the last of the chain. -/
+theorem completeness_ent_nodata {q : Name} {qtype : Nat} {soa : Option Name}
+    {nsecs : List Nsec} {Z : ZoneView} {cq : Nsec}
+    (hwf : InputsWF q soa [] nsecs)
+    (hapex : ∀ s, soa = some s → K s = Z.apex) (hin : ∀ s, soa = some s → K s <+: K q)
+    (hZ : ConsistentWith nsecs Z)
+    (hex : Z.Exists (K q)) (hnd : ¬ Z.hasData (K q))
+    (hcq : cq ∈ nsecs) (hcqc : covers soa q cq = true) :
+    verifyNsec q qtype soa 0 [] nsecs = .secure := by
+  -- no record is owned by the query name
+  have hdirect : nsecs.find? (fun r => Name.eq q r.owner) = none := by
+    rw [List.find?_eq_none]
+    intro r hr he
+    have hk := (eq_iff_key hwf.q (hwf.nsecs r hr).1).1 (by simpa using he)
+    exact hnd (hk ▸ link_owner_data (hZ r hr))
+  obtain ⟨c, hc⟩ := find?_some_of_mem (p := covers soa q) hcq hcqc
+  have hc' : findCovering soa q nsecs = some c := hc
+  obtain ⟨hcm, hcc⟩ := findCovering_some hc'
+  have hcl := hZ c hcm
+  obtain ⟨hccov, hcdel⟩ := coversIn_of_covers (Z := Z) hwf.q (hwf.nsecs c hcm) hwf.soa hapex
+    hin hcl hcc
+  -- the next name of the covering link is below the query name
+  obtain ⟨m, hm, hqm⟩ := hex
+  have hqm' : K q < m := lt_of_le_of_ne' (prefix_le hqm) (fun h => hnd (h ▸ hm))
+  have hom : K c.owner < m := lt_trans hccov.1 hqm'
+  have hbelow : K q <+: K c.next ∧ K q ≠ K c.next := by
+    apply Classical.byContradiction
+    intro hnb
+    obtain ⟨hd, hpre⟩ := gap_of_link hcl hm hom (below_in_gap hcl hccov hqm hnb)
+    rcases prefix_total hpre hqm with h | h
+    · exact hcdel ⟨hd, h⟩
+    · exact lt_irrefl _ (lt_of_lt_of_le hccov.1 (prefix_le h))
+  have hent : isStrictDescendant c.next q = true := by
+    unfold isStrictDescendant
+    rw [Bool.and_eq_true]
+    refine ⟨(zoneOf_iff _ _).2 hbelow.1, ?_⟩
+    rw [Bool.not_eq_eq_eq_not, Bool.not_true, Bool.eq_false_iff]
+    intro he
+    exact hbelow.2 ((eq_iff_key (hwf.nsecs c hcm).2 hwf.q).1 he).symm
+  have hst : (startOf q soa (!([] : List Ans).isEmpty)).isSome = true := by
+    unfold startOf
+    cases soa with
+    | none => rfl
+    | some s =>
+      have : s.zoneOf q = true := (zoneOf_iff _ _).2 (hin s rfl)
+      simp [this]
+  obtain ⟨n0, hn0⟩ := Option.isSome_iff_exists.1 hst
+  have hcov : verifyCovered q qtype soa 0 [] nsecs n0 c = .secure := by
+    unfold verifyCovered
+    simp only [hent]
+    rfl
+  unfold verifyNsec
+  rw [if_neg (by decide)]
+  simp only [hn0, hdirect, hc', hcov]
 
 /-! ### NODATA at an existing owner -/
 
